@@ -164,7 +164,7 @@ pub enum Spec {
 }
 
 pub const BYTES_REPS: &[&str] = &["static", "vec_exact", "vec_spare_shared", "owner", "frozen_shared_offset"];
-pub const BYTESMUT_REPS: &[&str] = &["inline", "inline_offset", "shared_offset"];
+pub const BYTESMUT_REPS: &[&str] = &["inline", "inline_offset", "shared_offset", "inline_spare", "shared_offset_spare"];
 
 #[derive(Clone, Debug, PartialEq, Eq)]
 pub enum M {
@@ -257,13 +257,27 @@ pub fn build(s: &Spec) -> (Tree, M) {
                     m.advance(1);
                     m
                 }
-                _ => {
+                2 => {
                     let mut v = vec![PAD];
                     v.extend_from_slice(d);
                     v.push(PAD);
                     let mut m = BytesMut::from(&v[..]);
                     let _head = m.split_to(1);
                     let _tail = m.split_off(n);
+                    m
+                }
+                3 => {
+                    // spare capacity behind the bytes (len < capacity)
+                    let mut m = BytesMut::with_capacity(n + 3);
+                    m.extend_from_slice(d);
+                    m
+                }
+                _ => {
+                    // the remainder after split_to: shared storage, offset, spare capacity
+                    let mut m = BytesMut::with_capacity(n + 5);
+                    m.extend_from_slice(&[PAD]);
+                    m.extend_from_slice(d);
+                    let _head = m.split_to(1);
                     m
                 }
             };
@@ -406,6 +420,73 @@ fn poke(t: &mut Tree, m: &mut M) -> bool {
     }
 }
 
+/// Append two bytes to the sequence denoted by this subtree, through the mutable accessors only (limits of
+/// Take nodes on the way are raised by two). Returns false if no leaf of the subtree can be extended.
+fn give(t: &mut Tree, m: &mut M) -> bool {
+    match (t, m) {
+        (Tree::Take(tk), M::Take(mi, l)) => {
+            if give(tk.get_mut(), mi) {
+                let nl = tk.limit().saturating_add(2);
+                tk.set_limit(nl);
+                *l = nl;
+                true
+            } else {
+                false
+            }
+        }
+        (Tree::Ref(rb), M::Wrap(mi)) => give(&mut *rb.0, mi),
+        (Tree::Chain(c), M::Chain(a, b)) => give(c.last_mut(), b) || give(c.first_mut(), a),
+        (Tree::Dyn(_), _) => false,
+        (leaf, M::Leaf(v)) => {
+            const MORE: [u8; 2] = [0xE1, 0xE2];
+            match leaf {
+                Tree::BytesMut(b) => {
+                    b.extend_from_slice(&MORE);
+                    v.extend_from_slice(&MORE);
+                }
+                Tree::Deque(q) => {
+                    q.push_back(MORE[0]);
+                    q.push_back(MORE[1]);
+                    v.extend_from_slice(&MORE);
+                }
+                Tree::Slice(s) => {
+                    v.extend_from_slice(&MORE);
+                    *s = leak(v);
+                }
+                Tree::Bytes(b) => {
+                    v.extend_from_slice(&MORE);
+                    *b = Bytes::from(v.clone());
+                }
+                Tree::Cursor(c) => {
+                    c.get_mut().extend_from_slice(&MORE);
+                    let (d, p) = (c.get_ref(), c.position());
+                    *v = if p <= d.len() as u64 { d[p as usize..].to_vec() } else { vec![] };
+                }
+                _ => return false,
+            }
+            true
+        }
+        _ => false,
+    }
+}
+
+/// Give the first half of the outermost reachable Chain two more bytes through first_mut() (after it may already
+/// have been drained and the chain moved on to its second half). Returns false if the tree has no such Chain.
+fn refill(t: &mut Tree, m: &mut M) -> bool {
+    match (t, m) {
+        (Tree::Take(tk), M::Take(mi, _)) => refill(tk.get_mut(), mi),
+        (Tree::Ref(rb), M::Wrap(mi)) => refill(&mut *rb.0, mi),
+        (Tree::Chain(c), M::Chain(a, b)) => {
+            if give(c.first_mut(), a) {
+                true
+            } else {
+                refill(c.last_mut(), b)
+            }
+        }
+        _ => false,
+    }
+}
+
 // ------------------------------------------------------------------ operations
 
 #[derive(Clone, Copy, Debug, PartialEq, Eq, Hash)]
@@ -431,6 +512,8 @@ pub enum Op {
     Dismantle,
     /// advance the innermost buffer by one byte through get_mut() / first_mut() / last_mut(), bypassing the adapters
     PokeInner,
+    /// append two bytes to the first half of the outermost Chain through first_mut() (not terminal: the sequence goes on)
+    RefillInner,
 }
 
 pub enum Root {
@@ -773,7 +856,7 @@ pub fn apply(root: &mut Root, m: &mut M, op: Op, stats: &mut Stats) -> Result<bo
                 }
             }
         }
-        Op::IntoIter(_) | Op::Dismantle | Op::PokeInner => return Ok(false),
+        Op::IntoIter(_) | Op::Dismantle | Op::PokeInner | Op::RefillInner => return Ok(false),
     }
     Ok(true)
 }
@@ -920,6 +1003,7 @@ fn ops_at(root_is_take: bool, reader: bool, rem: usize, cur_limit: Option<usize>
     }
     v.push(Op::Dismantle);
     v.push(Op::PokeInner);
+    v.push(Op::RefillInner);
     v
 }
 
@@ -959,6 +1043,16 @@ pub fn run_sequence_inner(spec: &Spec, reader: bool, seq: &[Op], parity_odd: boo
                     })?;
                 }
                 return Ok(None);
+            }
+            if let Op::RefillInner = op {
+                if !refill(root.tree_mut(), &mut m) {
+                    return Ok(None);
+                }
+                observe(&root, &m, stats).map_err(|mut f| {
+                    f.msg = format!("after giving the first half of the Chain two more bytes through first_mut(): {}", f.msg);
+                    f
+                })?;
+                continue;
             }
             if let Op::IntoIter(mode) = op {
                 if *mode == 0 {
@@ -1023,7 +1117,7 @@ pub fn leaves(d: &[u8], rich: bool) -> Vec<Spec> {
     for &r in breps {
         v.push(Spec::Bytes(r, d.to_vec()));
     }
-    let mreps: &[u8] = if rich { &[0, 1, 2] } else { &[2] };
+    let mreps: &[u8] = if rich { &[0, 1, 2, 3, 4] } else { &[2, 3] };
     for &r in mreps {
         v.push(Spec::BytesMut(r, d.to_vec()));
     }
@@ -1116,15 +1210,33 @@ pub fn bounds(tier: &str) -> Bounds {
         return Bounds { max_payload_chain: 2, max_payload: 3, unary_single: 1, unary_chain_leaf: 0, unary_chain_top: 1, three_leaves: false, rich_leaves: false, depth: 2, depth_chain: 2 };
     }
     if tier == "thorough" {
-        Bounds { max_payload_chain: 6, max_payload: 6, unary_single: 3, unary_chain_leaf: 1, unary_chain_top: 2, three_leaves: true, rich_leaves: true, depth: 3, depth_chain: 2 }
+        // (measured: ~690 000 trees; payload 6 with three unary adapters and two on top of chains was 17.9 million trees,
+        // which no tier can finish)
+        Bounds { max_payload_chain: 5, max_payload: 6, unary_single: 2, unary_chain_leaf: 1, unary_chain_top: 1, three_leaves: true, rich_leaves: true, depth: 3, depth_chain: 2 }
     } else {
         Bounds { max_payload_chain: 3, max_payload: 4, unary_single: 2, unary_chain_leaf: 1, unary_chain_top: 1, three_leaves: false, rich_leaves: false, depth: 2, depth_chain: 2 }
     }
 }
 
 /// Enumerate the tree specs of this tier: (spec, op-depth).
-pub fn enumerate(b: &Bounds) -> Vec<(Spec, usize)> {
-    let mut out: Vec<(Spec, usize)> = vec![];
+/// The trees of this tier whose index is `shard` modulo `nshards` (only those are materialised), and the
+/// total number of trees of the tier.
+pub fn enumerate_shard(b: &Bounds, shard: usize, nshards: usize) -> (Vec<(Spec, usize)>, usize) {
+    struct Out {
+        v: Vec<(Spec, usize)>,
+        idx: usize,
+        shard: usize,
+        nshards: usize,
+    }
+    impl Out {
+        fn push(&mut self, x: (Spec, usize)) {
+            if self.idx % self.nshards == self.shard {
+                self.v.push(x);
+            }
+            self.idx += 1;
+        }
+    }
+    let mut out = Out { v: vec![], idx: 0, shard, nshards };
     // one leaf, up to `unary_single` adapters
     for n in 0..=b.max_payload {
         for l in leaves(&payload(n, 0x10), true) {
@@ -1140,12 +1252,15 @@ pub fn enumerate(b: &Bounds) -> Vec<(Spec, usize)> {
         for na in 0..=n {
             let da = payload(na, 0x10);
             let db = payload(n - na, 0x40);
-            for la in leaves(&da, b.rich_leaves) {
+            // the rich leaf kinds (every ring-buffer wrap position, 3-way fragmentations, ...) and adapters on
+            // the second half multiply the count by ~6: they are used for payloads up to 3
+            let rich = b.rich_leaves && n <= 3;
+            for la in leaves(&da, rich) {
                 let mut wa = vec![];
                 wraps(&la, b.unary_chain_leaf, &mut wa);
                 for lb in leaves(&db, false) {
                     let mut wb = vec![];
-                    wraps(&lb, if b.rich_leaves { b.unary_chain_leaf } else { 0 }, &mut wb);
+                    wraps(&lb, if rich { b.unary_chain_leaf } else { 0 }, &mut wb);
                     for a in &wa {
                         for bb in &wb {
                             let c = Spec::Chain(Box::new(a.clone()), Box::new(bb.clone()));
@@ -1203,7 +1318,21 @@ pub fn enumerate(b: &Bounds) -> Vec<(Spec, usize)> {
         }
         out.push((Spec::Chain(Box::new(inner.clone()), Box::new(Spec::Slice(vec![0xF0, 0xF1]))), 1));
     }
-    out
+    // text with multi-byte characters cut by every chunk / leaf boundary (Reader::read_to_string must decode the
+    // sequence, not the chunks), and limits that cut a character in the middle (must fail, whole or in chunks)
+    let txt: Vec<u8> = "a\u{e9}\u{20ac}z".as_bytes().to_vec();
+    for cut in 1..txt.len() {
+        let (x, y) = (txt[..cut].to_vec(), txt[cut..].to_vec());
+        let chain = Spec::Chain(Box::new(Spec::Slice(x.clone())), Box::new(Spec::Bytes(1, y.clone())));
+        out.push((chain.clone(), 1));
+        out.push((Spec::Frag(vec![x.clone(), y.clone()]), 1));
+        out.push((Spec::Deque(txt.len(), txt.len() - cut, txt.clone()), 1));
+        out.push((Spec::Take(Box::new(chain), cut + 1), 1));
+        out.push((Spec::Take(Box::new(Spec::Slice(txt.clone())), cut), 1));
+    }
+    out.push((Spec::Frag(txt.iter().map(|&b| vec![b]).collect()), 1));
+    let total = out.idx;
+    (out.v, total)
 }
 
 fn spec_kind_sig(s: &Spec, out: &mut String) {
@@ -1250,8 +1379,8 @@ fn spec_kind_sig(s: &Spec, out: &mut String) {
 /// An endless source: remaining() is usize::MAX for ever (a lawful stream in the sense of the
 /// adapters: chunk() is never empty, advance never fails). Chained behind a finite header the
 /// total length saturates; Take and Reader must still bound and order exactly.
-struct Endless;
-static PATTERN: [u8; 8] = [0xD0, 0xD1, 0xD2, 0xD3, 0xD4, 0xD5, 0xD6, 0xD7];
+pub struct Endless;
+pub static PATTERN: [u8; 8] = [0xD0, 0xD1, 0xD2, 0xD3, 0xD4, 0xD5, 0xD6, 0xD7];
 impl Buf for Endless {
     fn remaining(&self) -> usize {
         usize::MAX
@@ -1337,8 +1466,13 @@ fn endless_cases(rep: &mut Report) -> u64 {
 }
 
 pub fn run(tier: &str, parity_odd: bool, shard: usize, nshards: usize, prop: &str, rep: &mut Report) {
-    let b = bounds(tier);
-    let specs = enumerate(&b);
+    let mut b = bounds(tier);
+    if prop == "C12" && tier == "thorough" {
+        // the Reader alphabet is three times as large: plain leaf kinds in chains
+        b.rich_leaves = false;
+        b.max_payload_chain = 4;
+    }
+    let (specs, total_trees) = enumerate_shard(&b, shard, nshards);
     let mut stats = Stats::default();
     let mut shapes: BTreeSet<String> = BTreeSet::new();
     let mut trees = 0u64;
@@ -1357,10 +1491,7 @@ pub fn run(tier: &str, parity_odd: bool, shard: usize, nshards: usize, prop: &st
             }
         }
     }
-    for (i, (spec, depth)) in specs.iter().enumerate() {
-        if i % nshards != shard {
-            continue;
-        }
+    for (spec, depth) in specs.iter() {
         trees += 1;
         if rep.saturated() {
             rep.exhaustive = false;
@@ -1433,6 +1564,7 @@ pub fn run(tier: &str, parity_odd: bool, shard: usize, nshards: usize, prop: &st
     rep.evaluations = stats.execs;
     rep.distinct_nontrivial = trees;
     rep.extra_num("trees", trees);
+    rep.extra_num("trees_of_tier_all_shards", total_trees as u64);
     rep.extra_num("tree_shapes", shapes.len() as u64);
     rep.extra_num("op_sequences", seqs);
     rep.extra_num("max_op_depth", maxdepth as u64);
